@@ -95,6 +95,8 @@ func Unmarshal(data []byte) (any, error) {
 
 type internalStruct struct {
 	PointerNum uint32 `json:",omitempty"`
+	// for a nil pointer (JSONValue null): the number of pointer levels of the type the nil pointer points to
+	NilElemPointerNum uint32 `json:",omitempty"`
 
 	// based type
 	Type      string          `json:",omitempty"`
@@ -132,8 +134,8 @@ func internalMarshal(v any) (*internalStruct, error) {
 	for rt.Kind() == reflect.Ptr {
 		ret.PointerNum++
 		if rv.IsNil() {
-			for rt.Kind() == reflect.Ptr {
-				rt = rt.Elem()
+			for rt = rt.Elem(); rt.Kind() == reflect.Ptr; rt = rt.Elem() {
+				ret.NilElemPointerNum++
 			}
 			key, ok := rm[rt]
 			if !ok {
@@ -274,7 +276,16 @@ func internalUnmarshal(v *internalStruct) (any, error) {
 		if !ok {
 			return nil, fmt.Errorf("unknown type key: %v", v.Type)
 		}
-		pResult := reflect.New(resolvePointerNum(v.PointerNum, t))
+		pResult := reflect.New(resolvePointerNum(v.PointerNum+v.NilElemPointerNum, t))
+		if v.PointerNum > 0 && string(v.JSONValue) == "null" {
+			// the pointer at level PointerNum is nil, the levels above it are not
+			dst := pResult.Elem()
+			for i := uint32(1); i < v.PointerNum; i++ {
+				dst.Set(reflect.New(dst.Type().Elem()))
+				dst = dst.Elem()
+			}
+			return pResult.Elem().Interface(), nil
+		}
 		err := sonic.Unmarshal(v.JSONValue, pResult.Interface())
 		if err != nil {
 			return nil, fmt.Errorf("unmarshal type[%s] fail: %v, data: %s", v.Type, err, string(v.JSONValue))
